@@ -187,7 +187,7 @@ prop(id='C21',
      level_note='Trusted: Coq kernel + vm_compute; Rust harness; the model-code tie is differential (finite matrix with random addresses / nonces / gas), the theorems are universal over the model. No axioms.',
      modelled=['address derivation and precompile membership are inputs of the model', 'the interpreter gas hand-back (insert_create_outcome, last_frame_return) as a result-class table',
                'gas between the two GAS readings of the factory contract: 3 per PUSH, 32000 CREATE, 63/64 rule'],
-     partial='EOFCREATE / EOF create transactions are not executed by the harness (model only: make_eofcreate_frame has the same order of checks after its container decoding). '
+     partial='A database that holds storage for an address it has no account info for (basic() = None, has_storage() = true) is inconsistent; it is put only to the layers that pass has_storage through or hold the slot themselves (custom database, WrapDatabaseRef, slots inserted into a CacheDB): State and CacheDB-over-a-database remember the missing account as not existing and answer "no storage" from that entry. EOFCREATE / EOF create transactions are not executed by the harness (model only: make_eofcreate_frame has the same order of checks after its container decoding). '
              'DatabaseComponents is not in the matrix: it never reports storage (known finding C20-components-no-has-storage). has_storage is asked of the database only: storage written earlier '
              'in the same transaction is not seen (cannot matter: such an account has a non-zero nonce or was self-destructed).',
      assumptions=['C20 hypotheses (a)-(d) for the layer theorems'],
